@@ -1,3 +1,4 @@
+import Std.Data.HashSet
 import StorageModel.Driver.Common
 import StorageModel.C05.Model
 import StorageModel.C05.Spec
@@ -286,7 +287,9 @@ def famName : Side → String
 
 def enumFrom {α : Type} (l : List α) : List (Nat × α) := (List.range l.length).zip l
 
-def dedupKeys (l : List Key) : List Key := l.foldl (fun acc k => if acc.contains k then acc else acc ++ [k]) []
+def dedupKeys (l : List Key) : List Key :=
+  (l.foldl (fun (acc : Std.HashSet Key × List Key) k =>
+    if acc.1.contains k then acc else (acc.1.insert k, k :: acc.2)) ({}, [])).2.reverse
 
 def view (sc : Schema) (r : Reader) (poolA poolB candA candB : List Key) : String :=
   let pool (sd : Side) := match sd with | .A => poolA | .B => poolB
@@ -312,7 +315,7 @@ def view (sc : Schema) (r : Reader) (poolA poolB candA candB : List Key) : Strin
         Bytes.toWire id ++ "=" ++ wires ls ++ "/" ++ wires ls ++ "/"
           ++ String.join ((pool f).map fun k => tf (ls.contains k)) ++ ";"))
   let dump := String.join ([Side.A, Side.B].map fun f =>
-    let ids := sortBy bytesLt ((dedupKeys (cand f)).filter fun id => r.has ⟨f, false⟩ id)
+    let ids := sortBy bytesLt ((cand f).filter fun id => r.has ⟨f, false⟩ id)
     String.join (ids.map fun id =>
       famName f ++ "." ++ Bytes.toWire id ++ (if r.has ⟨f, true⟩ id then "+" else "") ++
       String.join ((enumFrom sc.colls).map fun (i, c) =>
@@ -332,28 +335,64 @@ def candidates (txs : List (List (GOp Key))) (pool : List Key) (f : Side) : List
     | .create x id _ _ => if x.side = f then some id else none
     | _ => none)
 
-def runTxModel (sc : Schema) (g : GSt Key) (ops : List (GOp Key)) (vw : GSt Key → String) : GSt Key × String :=
+/-- evaluation plumbing only: the model's state holds its slots as a FUNCTION, so every operation
+    wraps the previous one in a closure and a lookup would re-run the slot's whole history; this
+    evaluates every declared slot once and stores the values (extensionally the same state) -/
+def strictSlots (sc : Schema) (g : GSt Key) : GSt Key :=
+  let arr := ((List.range sc.colls.length).map g.slots).toArray
+  { ents := g.ents, slots := fun i => arr.getD i [] }
+
+/-- the same for the entity buckets (a closure per operation): evaluated once per transaction for
+    every id the history can create (pools and ids of create operations, the ids the dump lists) -/
+def entSet (cands : List (Store × Key)) (ents : Store → Key → Bool) : Std.HashSet (Nat × Key) :=
+  cands.foldl (fun acc p => if ents p.1 p.2 then acc.insert (storeIdx p.1, p.2) else acc) {}
+
+/-- (the set is computed here, once, and captured by the closure: these return structures, not
+    functions, so the compiler does not turn the `let` into per-call work) -/
+def strictEntsM (cands : List (Store × Key)) (g : GSt Key) : GSt Key :=
+  let set := entSet cands g.ents
+  { g with ents := fun x k => set.contains (storeIdx x, k) }
+
+def strictEntsS (cands : List (Store × Key)) (g : GSSt Key) : GSSt Key :=
+  let set := entSet cands g.ents
+  { g with ents := fun x k => set.contains (storeIdx x, k) }
+
+def allCands (candA candB : List Key) : List (Store × Key) :=
+  candA.flatMap (fun k => [(⟨.A, false⟩, k), (⟨.A, true⟩, k)]) ++
+  candB.flatMap (fun k => [(⟨.B, false⟩, k), (⟨.B, true⟩, k)])
+
+def strictSpec (sc : Schema) (g : GSSt Key) : GSSt Key :=
+  let rels := ((List.range sc.colls.length).map g.rels).toArray
+  let selfs := ((List.range sc.colls.length).map g.selfs).toArray
+  { ents := g.ents, rels := fun i => rels.getD i {}, selfs := fun i => selfs.getD i [] }
+
+def runTxModel (sc : Schema) (g : GSt Key) (ops : List (GOp Key)) (cands : List (Store × Key)) (vw : GSt Key → String) :
+    GSt Key × String :=
   let rec go (cur : GSt Key) (ops : List (GOp Key)) (acc : List String) : GSt Key × List String × String :=
     match ops with
     | [] => (cur, acc.reverse, "")
     | op :: rest =>
       let o := gstep sc cur op
+      let st := strictSlots sc o.st
       match o.err with
-      | some e => (g, ((showRet o.ret ++ showErr e) :: acc).reverse, vw o.st)
-      | none => go o.st rest (showRet o.ret :: acc)
+      | some e => (g, ((showRet o.ret ++ showErr e) :: acc).reverse, vw (strictEntsM cands st))
+      | none => go st rest (showRet o.ret :: acc)
   let r := go g ops []
-  (r.1, ";".intercalate r.2.1 ++ "|" ++ r.2.2 ++ "|" ++ vw r.1)
+  let fin : GSt Key := strictEntsM cands r.1
+  (fin, ";".intercalate r.2.1 ++ "|" ++ r.2.2 ++ "|" ++ vw fin)
 
-def runTxSpec (sc : Schema) (g : GSSt Key) (ops : List (GOp Key)) (vw : GSSt Key → String) : GSSt Key × String :=
+def runTxSpec (sc : Schema) (g : GSSt Key) (ops : List (GOp Key)) (cands : List (Store × Key)) (vw : GSSt Key → String) :
+    GSSt Key × String :=
   let rec go (cur : GSSt Key) (ops : List (GOp Key)) (acc : List String) : GSSt Key × List String × String :=
     match ops with
     | [] => (cur, acc.reverse, "")
     | op :: rest =>
       match gsstep sc cur op with
       | none => (g, ("!" :: acc).reverse, "*")
-      | some (g', ret) => go g' rest (showRet ret :: acc)
+      | some (g', ret) => go (strictSpec sc g') rest (showRet ret :: acc)
   let r := go g ops []
-  (r.1, ";".intercalate r.2.1 ++ "|" ++ r.2.2 ++ "|" ++ vw r.1)
+  let fin : GSSt Key := strictEntsS cands r.1
+  (fin, ";".intercalate r.2.1 ++ "|" ++ r.2.2 ++ "|" ++ vw fin)
 
 def stepLine (spec : Bool) (scs pa pb : String) (txs : List String) : String :=
   let sc := parseSchema scs
@@ -361,18 +400,19 @@ def stepLine (spec : Bool) (scs pa pb : String) (txs : List String) : String :=
   let poolA := parseList pa
   let poolB := parseList pb
   let ptxs := txs.map fun t => (t.splitOn ";").filterMap parseOp
-  let candA := candidates ptxs poolA .A
-  let candB := candidates ptxs poolB .B
+  let candA := dedupKeys (candidates ptxs poolA .A)
+  let candB := dedupKeys (candidates ptxs poolB .B)
+  let cands := allCands candA candB
   if spec then
     let vw := fun (g : GSSt Key) => view sc (ofSpec sc g) poolA poolB candA candB
     let r := ptxs.foldl (fun (acc : GSSt Key × List String) t =>
-      let o := runTxSpec sc acc.1 t vw
+      let o := runTxSpec sc acc.1 t cands vw
       (o.1, acc.2 ++ [o.2])) (({} : GSSt Key), [])
     " ".intercalate r.2
   else
     let vw := fun (g : GSt Key) => view sc (ofModel g) poolA poolB candA candB
     let r := ptxs.foldl (fun (acc : GSt Key × List String) t =>
-      let o := runTxModel sc acc.1 t vw
+      let o := runTxModel sc acc.1 t cands vw
       (o.1, acc.2 ++ [o.2])) ((g0 : GSt Key), [])
     " ".intercalate r.2
 
